@@ -15,6 +15,10 @@ SHAPES = [
     ("shapeFitPoly", "mlinsights/mlmodel/extended_features.py", "ExtendedFeatures._fit_poly"),
     ("shapeTransformPoly", "mlinsights/mlmodel/extended_features.py", "ExtendedFeatures._transform_poly"),
     ("shapeFeatureNamesPoly", "mlinsights/mlmodel/extended_features.py", "ExtendedFeatures._get_feature_names_poly"),
+    ("shapeFit", "mlinsights/mlmodel/extended_features.py", "ExtendedFeatures.fit"),
+    ("shapeTransform", "mlinsights/mlmodel/extended_features.py", "ExtendedFeatures.transform"),
+    ("shapeGetFeatureNamesOut", "mlinsights/mlmodel/extended_features.py", "ExtendedFeatures.get_feature_names_out"),
+    ("shapeTransformPolySlow", "mlinsights/mlmodel/extended_features.py", "ExtendedFeatures._transform_poly_slow", "full"),
 ]
 SRC_POLY = "mlinsights/mlmodel/_extended_features_polynomial.py"
 SRC_EXT = "mlinsights/mlmodel/extended_features.py"
@@ -692,6 +696,28 @@ def _check_config(n, degree, io, bias, X, flag="bool"):
                 bad.append((site + ".get_feature_names_out:name-monomial",
                             "name of column %d does not denote the monomial in it" % j, nm,
                             "exponents %s" % [int(v) for v in pw]))
+                break
+        # the caller's own feature names (tokens that contain one another, default-like names in another order)
+        for custom in (["a", "ab", "b", "x1", "x0", "max1", "min1", "x10", "c", "x2", "x11", "d"][:n],
+                       [chr(ord("a") + i) for i in range(n)],
+                       ["x%d" % (n - 1 - i) for i in range(n)]):
+            if len(set(custom)) != n:
+                continue
+            try:
+                cn = list(ext.get_feature_names_out(custom))
+            except Exception as e:
+                bad.append((site + ".get_feature_names_out:raises", "raises with input_features=%r" % (custom,),
+                            "%s: %s" % (type(e).__name__, e), "one name per column"))
+                break
+            wrong = len(cn) != ref.shape[1]
+            for j, (nm, pw) in enumerate(zip(cn, pf.powers_)):
+                if parse_name(nm, custom) != [int(v) for v in pw]:
+                    wrong = True
+                    break
+            if wrong:
+                bad.append((site + ".get_feature_names_out:name-monomial:custom-names",
+                            "with input_features=%r a column name does not denote the monomial in the column" % (custom,),
+                            cn[:12], "names of the monomials %s" % [[int(v) for v in pw] for pw in pf.powers_[:6]]))
                 break
     return bad
 
